@@ -1,5 +1,5 @@
 //! Argument values for builder programs. A `Fill` is a total function field-index -> value:
-//! a base pattern plus up to two single-field overrides (the "deviations" of DESIGN.md C04).
+//! a base pattern plus up to six single-field overrides (the "deviations" of DESIGN.md C04).
 //! Both the real-crate driver and the reference encoder read the *same* caller values from it;
 //! they differ (and are independent) only in where they put them.
 use crate::util::splitmix;
@@ -40,12 +40,12 @@ pub fn gen_string(base: &str, n: usize, t: usize) -> String {
 #[derive(Clone, Copy, PartialEq, Eq, Hash, Debug)]
 pub struct Fill {
     pub base: u8,
-    pub o: [(u8, u64); 3],
+    pub o: [(u8, u64); 6],
 }
 
 impl Fill {
     pub const fn b(base: u8) -> Fill {
-        Fill { base, o: [(NONE, 0), (NONE, 0), (NONE, 0)] }
+        Fill { base, o: [(NONE, 0); 6] }
     }
     pub fn with(mut self, idx: u8, v: u64) -> Fill {
         for slot in self.o.iter_mut() {
@@ -54,7 +54,7 @@ impl Fill {
                 return self;
             }
         }
-        panic!("Fill: more than 3 overrides");
+        panic!("Fill: more than 6 overrides");
     }
     /// explicit size / count of a variable-size entry (override index SZ), when the program sets one
     pub fn size(&self) -> Option<usize> {
